@@ -2,8 +2,7 @@ import os
 
 from .. import core
 from ..gen import bundled_files, encodings, hexs
-from ..readergen import (ENCODINGS, ERROR_KINDS, chunk_fixed, chunk_random, gen_text, le_dangling, lost_prefix,
-                         parse_tokens, with_intr)
+from ..readergen import ENCODINGS, ERROR_KINDS, chunk_random, gen_text, with_intr
 from ..runner import Case, Property
 
 WRITE_FAULTS = ["f" + k for k in ERROR_KINDS] + ["z"]
@@ -18,9 +17,10 @@ class C09(Property):
         "Lean 4 theorems, unbounded. Read side, over the model of src/reader/decoder.rs + decode.rs for every DecodeBeatmap implementation "
         "and every delivery schedule: if the schedule contains a fatal error, decode returns the FIRST such error — wherever it sits, "
         "even after the last byte, under any chunking and interruptions (read_fault_surfaces; ok_means_no_fault: never Ok with a partial map); "
-        "Interrupted is not a fault (interrupted_not_a_fault); an error of decode is the reader's first fatal error OR the exactly "
-        "characterised UTF-16LE tail (decode_err_only_from_reader_partial, dangling_lf_errors) — the unrestricted statement is kept as "
-        "decode_err_only_from_reader_statement and its NEGATION is proved on FF FE 0A (finding F6). Write side, over Model/Writer.lean "
+        "Interrupted is not a fault (interrupted_not_a_fault); conversely every error of decode is the reader's first fatal error, at FULL "
+        "strength (decode_err_only_from_reader; decode_fails_iff_reader_fails) — FF FE 0A, which failed with UnexpectedEof before the repair "
+        "of read_line (former finding F6, fixed in a74dea1), is kept as an example that now decodes; a reader fault of kind UnexpectedEof right "
+        "after a UTF-16LE 0x0A byte is still surfaced (next_byte, not read_exact). Write side, over Model/Writer.lean "
         "(std's write_all loop on a writer described by budgets / Interrupted / Ok(0) / errors; encode = its write_all calls then flush): "
         "a fatal event behind a budget smaller than the output is returned (Ok(0) as WriteZero), exactly the budgeted prefix was written and "
         "flush is not attempted (write_fault_surfaces); otherwise every byte is written whatever the short writes and interruptions and the "
@@ -31,14 +31,11 @@ class C09(Property):
         "against the statement and against a replay of its own write calls.")
     technique = "Lean 4 proof (first-fault characterisation of the reader; budget characterisation of write_all) + fault-injection differential run"
     required_theorems = [
-        "read_fault_surfaces", "ok_means_no_fault", "interrupted_not_a_fault", "decode_err_only_from_reader_partial",
-        "dangling_lf_errors", "decode_err_only_from_reader_false", "write_fault_surfaces", "short_writes_transparent",
+        "read_fault_surfaces", "ok_means_no_fault", "interrupted_not_a_fault", "decode_err_only_from_reader",
+        "decode_fails_iff_reader_fails", "write_fault_surfaces", "short_writes_transparent",
         "flush_checked", "written_prefix", "call_boundaries_irrelevant",
     ]
     partial_theorems = {
-        "decode_err_only_from_reader_partial": "the unrestricted decode_err_only_from_reader_statement (every Err of decode was reported by the "
-                                               "reader) is FALSE of the code (decode_err_only_from_reader_false, finding F6); the partial theorem "
-                                               "adds the exact extra case: fault-free UTF-16LE input ending on a dangling 0x0A byte",
         "write_fault_surfaces": "about the model's list of write_all calls for an arbitrary call list; that Beatmap::encode IS such a list "
                                 "followed by one flush is checked on the implementation per case (replay of its recorded write calls), "
                                 "the encoder itself (Model/Encode) is not modelled in this revision",
@@ -121,7 +118,13 @@ class C09(Property):
             cases.append(Case("faultsched " + " ".join(toks), tags=("read", "fault-free+intr", enc)))
         for line in ["faultsched fOther", "faultsched i fTimedOut", "faultsched c- fWouldBlock", "faultsched cfffe0a",
                      "faultsched cfffe0a fPermissionDenied", "faultsched cfffe i c0a", "faultsched cfffe41 c0a i",
-                     "faultsched c5b fOther c47", "faultsched cefbbbf fUnexpectedEof", "faultsched cfffe0a00 fUnexpectedEof"]:
+                     "faultsched c5b fOther c47", "faultsched cefbbbf fUnexpectedEof", "faultsched cfffe0a00 fUnexpectedEof",
+                     # pins of the repaired read_line / read_bom: UnexpectedEof injected right after an LE 0x0A byte is surfaced,
+                     # end of input there is not an error, faults while the BOM prefix is being collected
+                     "faultsched cfffe41000a fUnexpectedEof c00", "faultsched cfffe41000a fUnexpectedEof", "faultsched cfffe c4100 c0a fUnexpectedEof c00 c4200",
+                     "faultsched cfffe41000a i fOther c00", "faultsched cfffe41000a", "faultsched cfffe410a0a", "faultsched cfffe0a41",
+                     "faultsched cff fTimedOut cfe", "faultsched cef cbb fWouldBlock cbf", "faultsched c5b c47 fOther", "faultsched cfeff000a fPermissionDenied",
+                     "faultsched cfeff0a fUnexpectedEof c41000a"]:
             cases.append(Case(line, tags=("read", "corner")))
 
         # ---- write side ------------------------------------------------------------------------
@@ -206,17 +209,8 @@ class C09(Property):
         return impl_out.startswith("err") or case.line.startswith("encfault")
 
     def known(self, case, out, findings):
-        ids = {f["id"] for f in findings}
-        toks = case.line.split()
-        if toks[0] != "faultsched" or "F6" not in ids:
-            return None
-        if not out.startswith("FAIL err-without-fault explained=utf16le-dangling-lf"):
-            return None
-        evs = parse_tokens(toks[1:])
-        if any(k == "f" for k, _ in evs):
-            return None
-        data = b"".join(p for k, p in evs if k == "c")
-        return "F6" if le_dangling(data[lost_prefix(evs):]) else None
+        # F6 is fixed (a74dea1): a fixed entry suppresses nothing — if the failure returns it is a violation.
+        return None
 
 
 PROP = C09()
